@@ -197,6 +197,9 @@ func (f *Frame) callWith(in ssa.Instruction, c *ssa.CallCommon, fv Val, args []V
 	}
 	switch {
 	case con != nil && !con.Inline:
+		if con.NoFrame {
+			vc.unsupported("call of a noframe entry point from code under contract")
+		}
 		vc.usedCon[key] = true
 		res = f.applyContract(con, fn, c, args, o, resT, ordName, in)
 	case fn != nil && fn.Blocks != nil && f.canInline(fn):
